@@ -517,8 +517,8 @@ def describe(m):
 
 
 def correspondence(ctx):
-    nseq = 3000 if ctx.quick else 40000
-    npred = 2400 if ctx.quick else 24000
+    nseq = 2400 if ctx.quick else 40000
+    npred = 1600 if ctx.quick else 24000
     groups = build_groups(ctx, nseq, npred)
     ctx.log("running implementation on", nseq, "sequences,", npred, "predicate cases")
     results = ctx.run_impl("c11_impl", {"groups": groups})["groups"]
